@@ -127,6 +127,27 @@ def kernel_case(col, kind, seed, n_tr):
         col.add(None)
 
 
+def special_corrections(col):
+    """user proposals whose declared log-correction is -inf (the move cannot be reversed: q(x|x') = 0), +inf, NaN or finite: the reported
+    acceptance probability must be min(1, exp(log-density difference + correction)) - 0 for -inf, rejection with code 90 for NaN"""
+    from rtc.c05 import kernel_cases
+    sub = util.Collector()
+    kernel_cases(sub, corrections=(float("-inf"), float("nan"), float("inf"), 0.7, -0.7))
+    for v in sub.violations:
+        if "mh_kernel" in v["sig"]:
+            col.add({**v, "sig": "native::mh_correction::special_values"})
+            return
+    col.add(None)
+
+
+def replay(unit_id, obligation, model):
+    if unit_id == "C06.mh.correction_bit_for_bit":
+        col = util.Collector()
+        special_corrections(col)
+        return col.violations[0] if col.violations else None
+    return None
+
+
 def bounded(tier, seed):
     rng = np.random.default_rng(seed)
     col = util.Collector()
@@ -135,12 +156,13 @@ def bounded(tier, seed):
     n_tr = 25 if tier == "quick" else 300
     for kind in ("iwls", "iwls_user", "rw", "mh"):
         kernel_case(col, kind, seed + 3, n_tr)
+    special_corrections(col)
     return {
         "evaluations": col.evals, "distinct_nontrivial": n_la + 4,
         "rule": (f"BOUNDED: iwls_utils on {n_la} seeded SPD precision matrices of dimension 1-4 against numpy closed forms (solve, log-density, sample identity "
                  f"L'(x-m)=z); {n_tr} real jitted transitions each of IWLS (autodiff Hessian), IWLS (user chol_info_fn = exact Fisher information, position dependent), RW and MH "
                  "(asymmetric user proposal with its analytic correction) on a 2-parameter Poisson regression: for every accepted move the reported acceptance probability is "
-                 f"compared with the analytic MH ratio in float64 (tolerance 5e-3). seed={seed}"),
+                 f"compared with the analytic MH ratio in float64 (tolerance 5e-3); MH kernel with declared corrections -inf / +inf / NaN / +-0.7. seed={seed}"),
         "samples": [{"kernel": "iwls_user", "step_size": 0.9}],
         "exhaustive": False, "violations": col.violations,
     }
